@@ -56,6 +56,11 @@ Definition c_dump (e : cel) (D : list nid) (Fs : list (list nid)) (nodes : list 
   let kc := fun n => match h_len h ftrue n with Ok k => k | _ => 0%nat end in
   flat_map (c_dump_node h (in_list D) (map in_list Fs) kc) nodes
   ++ frame 23 0 (enc_res enc_ids (h_sort h (in_list D) to_sort)).
+Definition c_dump_doc (docid : nid) (d : cdoc) (D : list nid) (Fs : list (list nid)) (nodes : list nid) (to_sort : list nid) : list N :=
+  let h := heap_doc docid d in
+  let kc := fun n => match h_len h ftrue n with Ok k => k | _ => 0%nat end in
+  flat_map (c_dump_node h (in_list D) (map in_list Fs) kc) nodes
+  ++ frame 23 0 (enc_res enc_ids (h_sort h (in_list D) to_sort)).
 Definition c_dump_loose_text (t : tobj) (D : list nid) (Fs : list (list nid)) : list N :=
   let h := heap_loose (LText t) in
   c_dump_node h (in_list D) (map in_list Fs) (fun _ => 0%nat) (t_id t)
